@@ -121,12 +121,16 @@ def digitsToNat (ds : Str) : Nat := ds.foldl (fun a c => a * 10 + digitVal c) 0
 def pow10 (e : Int) : Rat :=
   if e ≥ 0 then (10 : Rat) ^ e.toNat else 1 / (10 : Rat) ^ (-e).toNat
 
+/-- magnitudes from here on are `±HUGE_VAL` for `strtod` (the half-ulp above `DBL_MAX` that still rounds down is
+    ignored) -/
+def dblOverflow : Rat := (2 : Rat) ^ 1024
+
 /-- `istringstream(token) >> double` of libstdc++ in the "C" locale, with the value kept as the exact decimal:
     skip leading white space; optional sign; digits; optional `.` digits; if a mantissa digit was seen, optional
     `e|E`, optional sign, digits; stop at the first other character (the rest of the token is IGNORED);
     then `strtod` must consume the whole accumulated text: at least one mantissa digit, and at least one exponent
-    digit when `e` was taken — otherwise failbit (`none`).  Not modelled: overflow to ±HUGE_VAL (failbit), and the
-    rounding of the decimal to the nearest `double`. -/
+    digit when `e` was taken — otherwise failbit (`none`); a value that overflows to ±HUGE_VAL is failbit too.
+    Not modelled: the rounding of the decimal to the nearest `double`. -/
 def parseNum (s : Str) : Option Rat :=
   let s := s.dropWhile isSpaceC
   let (neg, s) :=
@@ -143,6 +147,7 @@ def parseNum (s : Str) : Option Rat :=
   else
     let mant : Rat := (digitsToNat (ip ++ fp) : Nat) / (10 : Rat) ^ fp.length
     let signed (q : Rat) : Rat := if neg then -q else q
+    let finite (q : Rat) : Option Rat := if q ≥ dblOverflow || q ≤ -dblOverflow then none else some q
     match s with
     | c :: t =>
       if c = 'e' || c = 'E' then
@@ -155,9 +160,11 @@ def parseNum (s : Str) : Option Rat :=
         if ed.isEmpty then none
         else
           let e := digitsToNat ed
-          some (signed (if eneg then mant / (10 : Rat) ^ e else mant * (10 : Rat) ^ e))
-      else some (signed mant)
-    | [] => some (signed mant)
+          -- `strtod` overflow (±HUGE_VAL) makes libstdc++ set failbit; underflow does not
+          if e > 100000 then (if eneg || mant = 0 then some 0 else none)
+          else finite (signed (if eneg then mant / (10 : Rat) ^ e else mant * (10 : Rat) ^ e))
+      else finite (signed mant)
+    | [] => finite (signed mant)
 
 def natDigits (n : Nat) : Str := Nat.toDigits 10 n
 
